@@ -86,6 +86,42 @@ def TablesAtMostOne (bs : Builtins) (π : List Name) : Prop :=
 def SectionsAtMostOne (g : GitCfg) (π : List Name) : Prop :=
   ∀ sec, ∀ c ∈ π, ∀ c' ∈ π, g.getBool sec c = some true → g.getBool sec c' = some true → c = c'
 
+/-- The sections of a git config: the main one and every `[delta "f"]`. -/
+def sectionKeys (g : GitCfg) : List (Option Name) := none :: g.file.sections.map (fun p => some p.1)
+
+/-- `SectionsAtMostOne`, quantified over the sections that exist (decidable). -/
+abbrev SectionsAtMostOneB (g : GitCfg) (π : List Name) : Prop :=
+  ∀ sec ∈ sectionKeys g, ∀ c ∈ π, ∀ c' ∈ π,
+    g.getBool sec c = some true → g.getBool sec c' = some true → c = c'
+
+theorem lookup_none_of_not_mem {β : Type} (k : String) (l : List (String × β))
+    (h : k ∉ l.map (·.1)) : lookup k l = none := by
+  induction l with
+  | nil => rfl
+  | cons p t ih =>
+    obtain ⟨a, b⟩ := p
+    have hak : a ≠ k := fun e => h (by simp [e])
+    have ht : k ∉ t.map (·.1) := fun hm => h (by simp at hm ⊢; exact Or.inr hm)
+    simp [lookup, hak, ih ht]
+
+theorem sectionsAtMostOne_of_bounded (g : GitCfg) (π : List Name) (h : SectionsAtMostOneB g π) :
+    SectionsAtMostOne g π := by
+  intro sec c hc c' hc' h1 h2
+  cases sec with
+  | none => exact h none List.mem_cons_self c hc c' hc' h1 h2
+  | some f =>
+    by_cases hf : f ∈ g.file.sections.map (·.1)
+    · refine h (some f) ?_ c hc c' hc' h1 h2
+      obtain ⟨p, hp, rfl⟩ := List.mem_map.mp hf
+      exact List.mem_cons_of_mem _ (List.mem_map.mpr ⟨p, hp, rfl⟩)
+    · have : g.getBool (some f) c = none := by
+        unfold GitCfg.getBool
+        by_cases he : g.enabled
+        · simp [he, lookup_none_of_not_mem f _ hf]
+        · simp [he]
+      rw [this] at h1
+      cases h1
+
 theorem gatherB_perm (bs : Builtins) {π π' : List Name} (hp : π.Perm π') (hnd : π.Nodup)
     (hT : TablesAtMostOne bs π) :
     ∀ n f acc, gatherB bs π n f acc = gatherB bs π' n f acc := by
